@@ -8,7 +8,7 @@ for c in "$@"; do
   n=$(python3 -c "import json;print(sum(len(u['entries']) for u in json.load(open('checks/$c.json'))['units']))")
   for i in $(seq 0 $((n-1))); do
     S=$(date +%s)
-    GOSX_EVIDENCE_DIR=/tmp/ev timeout $CAP bin/gosx check $c --tier ${TIER:-thorough} --index $i > $OUT/$c.$i.log 2>&1; RC=$?
+    GOSX_EVIDENCE_DIR=/tmp/ev timeout $CAP bin/gosx check $c --tier ${TIER:-thorough} --index $i ${REPO:+--repo $REPO} > $OUT/$c.$i.log 2>&1; RC=$?
     echo "$c[$i] exit=$RC $(( $(date +%s) - S ))s $(tail -1 $OUT/$c.$i.log | cut -c1-140)" | tee -a $OUT/entries.txt
   done
 done
